@@ -182,8 +182,14 @@ func (s *RandomSched) Next(w *World, choices []Choice) (int, time.Duration) {
 func (s *RandomSched) Join(w *World, choices []Choice) int {
 	// an event that waits for a delivery into its node and has found one
 	for i, c := range choices {
-		if c.Affine && s.R.Bool(0.35) {
-			return i
+		if c.Affine {
+			p := 0.35
+			if c.Proposal != nil && c.Proposal.JoinP > 0 {
+				p = c.Proposal.JoinP
+			}
+			if s.R.Bool(p) {
+				return i
+			}
 		}
 	}
 	if !s.R.Bool(s.JoinP) {
